@@ -1131,6 +1131,10 @@ func (r *run) exec1(op Op) {
 		}
 		r.arm(op.F, "rest:snapshot", "err")
 		r.fac.onCreate = nil
+		// (other operations may have run since AddBegin: the add's snapshot is what is new now)
+		for _, nm := range r.names {
+			g.before[nm] = r.nodeState(r.node(nm)).Snaps
+		}
 		close(g.release)
 		err := <-g.done
 		r.fac.mu.Lock()
@@ -1925,7 +1929,7 @@ func (r *run) generate(n int, profile string) {
 		case k < 80:
 			snapN++
 			var f []string
-			if rng.Intn(6) == 0 {
+			if rng.Intn(6) == 0 || (profile == "snapshot" && rng.Intn(3) == 0) {
 				f = r.subset(all, 0.4)
 			}
 			do(Op{Ev: "Snapshot", Name: fmt.Sprintf("u%d", snapN), F: f})
